@@ -104,7 +104,8 @@ structure Cfg where
   prot : Bool := false          -- ThreadExecutionProtection::loopProtection
   maxExec : Nat := 5000         -- maxExecutionTime (0 = no limit)
   maxDepth : Nat := 20          -- ScriptExecutionStack::maxStackDepth
-  sWarn : Bool := true          -- which OutputInfo streams are attached
+  sOut : Bool := true           -- which OutputInfo streams are attached
+  sWarn : Bool := true
   sDbg : Bool := true
   sErr : Bool := true
   sVerb : Bool := false
@@ -405,7 +406,7 @@ def diagOf (E : Env) (s : St) : List Diag :=
     | some th =>
       if th.vs == .running then
         match (E.prog.getD th.label []).getD th.pc .done with
-        | .print m => [.out m]
+        | .print m => if E.cfg.sOut then [.out m] else []
         | _ => []
       else []
     | none => []
